@@ -155,14 +155,16 @@ class GroupOutput(PartFlowController):
 
     def give_part(self, part):
         try:
-            last_entered_group = part._group_pathing[-1]
+            last_entered_group = part._group_pathing.pop()
         except IndexError:
             raise RuntimeError(f'Part {part.name} is trying to exit Group {self._group.name}'
                                +f' but does not contain information on which GroupPath to use.')
-
+        # The GroupPath is removed before the Part is offered downstream
+        # because the downstream may be the output of an enclosing Group
+        # which needs to see its own GroupPath as the last one entered.
         did_pass = last_entered_group._pass_part_downstream(part)
-        if did_pass:
-            part._group_pathing.pop()
+        if not did_pass:
+            part._group_pathing.append(last_entered_group)
         return did_pass
 
     def _add_downstream(self, downstream):
